@@ -532,6 +532,7 @@ type SpecFun struct {
 	Result  string
 	Body    SExpr // optional definition
 	BodyTxt string
+	Macro   bool // expanded at every use in the evaluation state (may read the heap)
 }
 
 type Axiom struct {
@@ -739,8 +740,12 @@ func (sp *Specs) parseFile(pkg string, lines []string) {
 			cur.Params[ps.Name] = ps
 		case "spec":
 			// spec fun name(a T, b T) R [= expr]
-			rest = strings.TrimSpace(strings.TrimPrefix(rest, "fun"))
+			isMacro := strings.HasPrefix(rest, "macro")
+			rest = strings.TrimSpace(strings.TrimPrefix(strings.TrimPrefix(rest, "fun"), "macro"))
 			sf := parseSpecFun(rest, pkg)
+			if sf != nil {
+				sf.Macro = isMacro
+			}
 			if sf == nil {
 				sp.errf("%s: bad spec fun %q", pkg, rest)
 				continue
